@@ -1042,7 +1042,12 @@ impl TryFrom<&mut Peekable<Lexer>> for ParserNode {
                             // not found
                             let mut values = Vec::new();
                             loop {
-                                let next = lex.peek_any()?;
+                                // The list also ends with the file. Treating that
+                                // as an error would drop the whole directive.
+                                let next = match lex.peek_any() {
+                                    Err(LexError::UnexpectedEOF) => break,
+                                    other => other?,
+                                };
                                 if let TokenType::Newline = next.token_type() {
                                     // consume newline
                                     lex.get_any()?;
